@@ -6,3 +6,4 @@ pub mod ecorder;
 pub mod smooth;
 pub mod ec;
 pub mod linalg;
+pub mod qpoly;
